@@ -36,6 +36,13 @@ fn parse_length(i: &[u8]) -> nom::IResult<&[u8], usize> {
     } else {
         let len = len - 128;
         let (i, b) = take(len)(i)?;
+        // A length which doesn't fit into 64 bits mustn't be folded into that range.
+        if b.len() > 8 && b[..b.len() - 8].iter().any(|&o| o != 0) {
+            return Err(nom::Err::Failure(Error::from_error_kind(
+                i,
+                ErrorKind::TooLarge,
+            )));
+        }
         let (_, len) = parse_uint(b)?;
         Ok((
             i,
